@@ -396,6 +396,9 @@ func Run(sc *Scenario, o RunOpts) *RunResult {
 
 // FormatEvents renders (the tail of) the log for failure messages.
 func FormatEvents(evs []Event, max int) string {
+	if n := getenvInt("VERIF_EVENTS"); n > 0 {
+		max = n
+	}
 	s := ""
 	from := 0
 	if len(evs) > max {
